@@ -1,6 +1,6 @@
 //! Shared case function for history-based checks.
 
-use crate::history::{HistoryResult, run_history};
+use crate::history::{HistoryResult, run_history_for};
 use crate::ir::History;
 use crate::runner::{CaseStats, CurrentFile, Violation};
 use crate::step::Ctx;
@@ -87,7 +87,7 @@ pub fn plain_history_case(
 ) -> impl Fn(&History, &mut CurrentFile) -> (CaseStats, Option<Violation>) + Sync {
     move |h, cur| {
         cur.record(&history_value(h));
-        let res = run_history(h);
+        let res = run_history_for(h, prop);
         let mut stats = CaseStats::default();
         let nt = rule(&res.ctx);
         let v = account(prop, h, &res, nt, &mut stats);
